@@ -94,8 +94,21 @@ int main()
     std::thread       a([&] {
         for (uint64_t i = 0; !stop.load(std::memory_order_relaxed) && i < 200000; ++i)
         {
+            // every kind of mutation the container offers, so that each shared field has a concurrent writer
             sinkA += x_insert(c, i % 6, i, 3, 1000);
             if (i % 3 == 0) sinkA += x_erase(c, (i + 1) % 6);
+#if T_HAS_UPDTTL
+            if (i % 5 == 0) c.update_ttl(std::chrono::milliseconds{1000 + (int64_t)(i % 3)});
+#endif
+#if T_HAS_CLEAN
+            if (i % 7 == 0) sinkA += c.clean_expired_values();
+#endif
+#if T_HAS_AGE
+            if (i % 11 == 0) sinkA += c.dynamically_age();
+#endif
+#if T_HAS_CLEAR
+            if (i % 97 == 0) c.clear();
+#endif
         }
     });
     std::thread b([&] {
